@@ -552,6 +552,59 @@ impl Glob {
     }
 }
 
+#[cfg(ripgrep_verif)]
+impl Glob {
+    /// Verification hook: a structural dump of the parsed tokens of this
+    /// glob, as an s-expression of numbers.
+    ///
+    /// Each token is written as `(0 c)` for a literal character with code
+    /// point `c`, `(1)` for `?`, `(2)` for `*`, `(3)` for a recursive prefix,
+    /// `(4)` for a recursive suffix, `(5)` for a recursive zero-or-more,
+    /// `(6 negated ((lo hi) ...))` for a class and `(7 (alternate ...))` for
+    /// alternates, where every alternate is itself a token list.
+    pub fn verif_tokens(&self) -> String {
+        fn dump(tokens: &[Token], out: &mut String) {
+            out.push('(');
+            for t in tokens {
+                match *t {
+                    Token::Literal(c) => {
+                        write!(out, "(0 {})", u32::from(c)).unwrap()
+                    }
+                    Token::Any => out.push_str("(1)"),
+                    Token::ZeroOrMore => out.push_str("(2)"),
+                    Token::RecursivePrefix => out.push_str("(3)"),
+                    Token::RecursiveSuffix => out.push_str("(4)"),
+                    Token::RecursiveZeroOrMore => out.push_str("(5)"),
+                    Token::Class { negated, ref ranges } => {
+                        write!(out, "(6 {} (", u8::from(negated)).unwrap();
+                        for r in ranges {
+                            write!(
+                                out,
+                                "({} {})",
+                                u32::from(r.0),
+                                u32::from(r.1)
+                            )
+                            .unwrap();
+                        }
+                        out.push_str("))");
+                    }
+                    Token::Alternates(ref alts) => {
+                        out.push_str("(7 (");
+                        for alt in alts {
+                            dump(alt, out);
+                        }
+                        out.push_str("))");
+                    }
+                }
+            }
+            out.push(')');
+        }
+        let mut out = String::new();
+        dump(&self.tokens, &mut out);
+        out
+    }
+}
+
 impl<'a> GlobBuilder<'a> {
     /// Create a new builder for the pattern given.
     ///
